@@ -86,6 +86,10 @@ OUTER:
 		// find the end of the last term in this fragment
 		minend := end
 		for _, innerTermLocation := range ot[currTermIndex:] {
+			if innerTermLocation.Start < 0 || innerTermLocation.Start > innerTermLocation.End {
+				// not a location inside the text, it cannot end the last term
+				continue
+			}
 			if innerTermLocation.End > end {
 				break
 			}
